@@ -1,3 +1,4 @@
 CONSTANTS N = 4 B = 2 D = 2 E = 3
+  BIG = {16777217, 100000001, 2147483639}
 INIT GInit
 NEXT GNext
